@@ -2146,16 +2146,17 @@ func paginateList[P listParams, R listResult[T], T any](fs *featureSet[T], pageS
 	var features []T
 	for f := range seq {
 		count++
-		// If we've seen pageSize + 1 elements, we've gathered enough info to determine
+		// If we've seen more than pageSize elements, we've gathered enough info to determine
 		// if there's a next page. Stop processing the sequence.
-		if count == pageSize+1 {
+		// (Compare with pageSize itself: pageSize+1 overflows for math.MaxInt.)
+		if count > pageSize {
 			break
 		}
 		features = append(features, f)
 	}
 	setFunc(res, features)
 	// No remaining pages.
-	if count < pageSize+1 {
+	if count <= pageSize {
 		return res, nil
 	}
 	nextCursor, err := encodeCursor(fs.uniqueID(features[len(features)-1]))
